@@ -2,7 +2,8 @@
    appending text that cannot continue a number, whitespace around a document, and the Frame
    codec theorems for metas that may contain float lexemes (wf_lex').
    Axiom-free; stdlib only. *)
-From XS Require Import Model.Json Proofs.BytesP Proofs.CodecP Proofs.JsonP.
+From XS Require Import Model.Json Proofs.BytesP Proofs.CodecP.
+From XS Require Import Proofs.JsonP.
 From Coq Require Import Lia ZArith ZifyN ZifyBool.
 Import ListNotations.
 Open Scope N_scope.
